@@ -315,6 +315,79 @@ func c11(c *Ctx) {
 	privReach := reachFrom(privNA)
 	r.Functions = len(pubReach) + len(privReach)
 
+	// ---------- H1c: the gates only look: neither api.session nor sessionOrProxy proposes an entry or builds one ("a missing,
+	// empty, wrong or other session's secret is refused without any effect on state")
+	{
+		amw := c.amwLike()
+		for _, gate := range []*load.FuncInfo{sess, sop} {
+			if gate == nil || gate.Body() == nil {
+				continue
+			}
+			gi := gate.Info()
+			bad := ""
+			for _, call := range astx.Calls(gate.Body(), true) {
+				if fn := astx.Callee(gi, call); fn != nil && amw[fn] {
+					bad = "calls " + astx.Str(call.Fun)
+				}
+			}
+			if len(compositeLitsOf(gi, gate.Body(), pathRobust, "Message")) > 0 {
+				bad = "builds a robust.Message"
+			}
+			r.Check(bad == "", "C11.H1", gate.Name(), "the gate has no effect on state", c.P.Pos(gate.Node().Pos()), "no proposal, no robust.Message built",
+				"the authentication gate itself proposes an entry ("+bad+"), i.e. a request that was not (yet) authenticated changes replicated state — e.g. deleting a session after a number of wrong secrets lets anybody delete any session")
+		}
+	}
+	// ---------- H2b: what the client's JSON body is decoded into is never itself the entry that gets proposed (a body that
+	// is decoded on top of a pre-filled robust.Message can overwrite Session and Type)
+	for fi := range pubReach {
+		if fi.Body() == nil {
+			continue
+		}
+		info := fi.Info()
+		targets := map[types.Object]bool{}
+		for _, call := range astx.Calls(fi.Body(), true) {
+			fn := astx.Callee(info, call)
+			if fn == nil || fn.Pkg() == nil || fn.Pkg().Path() != "encoding/json" || (fn.Name() != "Decode" && fn.Name() != "Unmarshal") || len(call.Args) == 0 {
+				continue
+			}
+			arg := ast.Unparen(call.Args[len(call.Args)-1])
+			if u, ok := arg.(*ast.UnaryExpr); ok && u.Op == token.AND {
+				arg = ast.Unparen(u.X)
+			}
+			if id, ok := arg.(*ast.Ident); ok {
+				targets[astx.Obj(info, id)] = true
+			}
+		}
+		if len(targets) == 0 {
+			continue
+		}
+		amw := c.amwLike()
+		for _, call := range astx.Calls(fi.Body(), true) {
+			fn := astx.Callee(info, call)
+			if fn == nil || !amw[fn] || len(call.Args) == 0 {
+				continue
+			}
+			arg := ast.Unparen(call.Args[0])
+			// follow msg := &req / msg := req
+			aliased := false
+			for k := 0; k < 4; k++ {
+				if u, ok := arg.(*ast.UnaryExpr); ok && u.Op == token.AND {
+					arg = ast.Unparen(u.X)
+				}
+				if id, ok := arg.(*ast.Ident); ok && targets[astx.Obj(info, id)] {
+					aliased = true
+					break
+				}
+				if d := uniqueDef(info, fi.Node(), arg); d != nil {
+					arg = ast.Unparen(d)
+					continue
+				}
+				break
+			}
+			r.Check(!aliased, "C11.H2", fi.Name(), "the proposed entry is not the value the request body was decoded into", c.P.Pos(call.Pos()), "a separate robust.Message is built from selected fields",
+				"the client's JSON body is decoded directly into the robust.Message that is then proposed: the body can set Session and Type, so a request authenticated for one session is applied as another session's message (or as a different entry type)")
+		}
+	}
 	// ---------- H2
 	isGate := func(fn *types.Func, _ *ast.CallExpr) bool { return fn == sess.Obj || fn == sop.Obj }
 	var names []string
